@@ -15,7 +15,7 @@ use pyo3::{Item, Leaf, Obj};
 macro_rules! get_one {
     ($name:ident, $kind:expr) => {
         #[kani::proof]
-        #[kani::unwind(18)]
+        #[kani::unwind(10)]
         #[kani::stub(alloc::fmt::format, stub_format)]
         #[kani::stub(<std::string::String as std::convert::TryFrom<&crate::ber::SnmpOid<'_>>>::try_from, stub_oid_to_string)]
         fn $name() {
